@@ -43,6 +43,7 @@ var preds = []ast.PredicateSym{
 	{Symbol: "q", Arity: 2},
 	{Symbol: "r", Arity: 3},
 	{Symbol: "y", Arity: 0},
+	{Symbol: "w", Arity: 6}, // wide: stores index a bounded number of columns / choose an index by column
 }
 
 // Store kinds.
